@@ -1,4 +1,5 @@
 CONSTANTS
+  Deep = FALSE
   TraceFile = "eq_trace.ndjson"
 SPECIFICATION Spec
 CHECK_DEADLOCK FALSE
